@@ -88,10 +88,13 @@ Definition vkind_of_code (n : N) : vkind :=
 Definition nz (n : N) : bool := negb (N.eqb n 0).
 
 Inductive case :=
-  (* response: string indexes of accept / designed type / pre-set header, packed
-     (value kind, codec refusals json xml gob, observed encoder [0 = nil, k+1], observed
-     decoder, Encode error, recovered), parser answers, error media types, header after *)
-| RC (idx accept ct preset code : N) (ol el : list N) (o_hdr : N)
+  (* response / error response: string indexes of accept / designed type / pre-set header,
+     packed (value kind, codec refusals json xml gob, observed encoder [0 = nil, k+1],
+     observed decoder, Encode error, recovered, error kind [0 = ordinary response with
+     status 200; else 1 + (name is unsupported_media_type, timeout, temporary, fault, not a
+     ServiceError)]), parser answers, error media types, and what was read ON THE WIRE:
+     Content-Type, status; sniff = what this writer fills in when it froze without one *)
+| RC (idx accept ct preset code : N) (ol el : list N) (o_hdr o_status sniff : N)
   (* request: Content-Type header, parser answers, packed (observed decoder [0 =
      unsupported, k+1], decoded), media type named by the error message, status *)
 | QC (idx hdr : N) (ol : list N) (code o_ct o_status : N)
@@ -99,33 +102,50 @@ Inductive case :=
 | EC (idx preset o_hdr : N).
 
 Definition case_idx (c : case) : N :=
-  match c with RC i _ _ _ _ _ _ _ => i | QC i _ _ _ _ _ => i | EC i _ _ => i end.
+  match c with RC i _ _ _ _ _ _ _ _ _ => i | QC i _ _ _ _ _ => i | EC i _ _ => i end.
+
+Definition other_name : bytes := [111; 116; 104; 101; 114].
+
+Definition goerr_of_code (n : N) : goerr :=
+  let '(unsup, x) := take 2 n in
+  let '(to, x) := take 2 x in
+  let '(te, x) := take 2 x in
+  let '(fa, plain) := take 2 x in
+  if nz plain then EPlain
+  else EService {| ename := if nz unsup then unsupported_media_type else other_name;
+                   etimeout := nz to; etemporary := nz te; efault := nz fa |}.
 
 Definition case_ok (t : table) (c : case) : bool :=
   match c with
-  | RC _ a c p code ol el ohdr =>
+  | RC _ a c p code ol el ohdr ost sniff =>
     let '(vk, x) := take 4 code in
     let '(rj, x) := take 2 x in
     let '(rx, x) := take 2 x in
     let '(rg, x) := take 2 x in
     let '(oenc, x) := take 5 x in
     let '(odec, x) := take 4 x in
-    let '(oerr, orec) := take 2 x in
+    let '(oerr, x) := take 2 x in
+    let '(orec, ekind) := take 2 x in
     let oenc := if N.eqb oenc 0 then None else Some (kind_of_code (N.pred oenc)) in
-    match str t a, str t c, str t p, str t ohdr with
-    | Some a, Some c, Some p, Some oh =>
+    match str t a, str t c, str t p, str t ohdr, str t sniff with
+    | Some a, Some c, Some p, Some oh, Some sn =>
       let pm := pmt_of t (pairs ol) in
-      let '(mk, mh) := response_encoder pm (errmt_of t (pairs el)) a c p in
-      let dk := response_decoder pm mh in
-      opt_kind_eqb mk oenc && beq mh oh && kind_eqb dk (kind_of_code odec) &&
-      match mk with
-      | None => true
-      | Some k =>
-        let enc_err := match encode (codec_of (nz rj) (nz rx) (nz rg)) k (value_of (vkind_of_code vk)) with
-                       | None => true | Some _ => false end in
-        Bool.eqb enc_err (nz oerr) && (if negb enc_err && kind_eqb k dk then nz orec else true)
+      let st := if N.eqb ekind 0 then 200 else http_status (error_response (goerr_of_code (N.pred ekind))) in
+      let '(mk, body, w) := send pm (errmt_of t (pairs el)) (codec_of (nz rj) (nz rx) (nz rg)) a c (w_new p) st
+                                 (value_of (vkind_of_code vk)) in
+      match wire sn w with
+      | None => false
+      | Some (wst, wh) =>
+        let dk := response_decoder pm wh in
+        opt_kind_eqb mk oenc && beq wh oh && N.eqb wst ost && kind_eqb dk (kind_of_code odec) &&
+        match mk with
+        | None => true
+        | Some k =>
+          let enc_err := match body with None => true | Some _ => false end in
+          Bool.eqb enc_err (nz oerr) && (if negb enc_err && kind_eqb k dk then nz orec else true)
+        end
       end
-    | _, _, _, _ => false
+    | _, _, _, _, _ => false
     end
   | QC _ h ol code oct ost =>
     let '(odec, odecoded) := take 5 code in
